@@ -301,6 +301,12 @@ func referenceOfEvent(eventJSON []byte, roomVersion RoomVersion) (eventReference
 	if err != nil {
 		return eventReference{}, err
 	}
+	return referenceOfEventForVersion(eventJSON, verImpl)
+}
+
+// referenceOfEventForVersion is referenceOfEvent for callers that already hold the room version.
+func referenceOfEventForVersion(eventJSON []byte, verImpl IRoomVersion) (eventReference, error) {
+	roomVersion := verImpl.Version()
 	redactedJSON, err := verImpl.RedactEventJSON(eventJSON)
 	if err != nil {
 		return eventReference{}, err
